@@ -78,7 +78,7 @@ func (c *Connack) Unpack(r io.Reader) error {
 
 // NewConnackPacket returns a Connack instance by the given FixHeader and io.Reader
 func NewConnackPacket(fh *FixHeader, version Version, r io.Reader) (*Connack, error) {
-	p := &Connack{FixHeader: fh, Version: Version5}
+	p := &Connack{FixHeader: fh, Version: version}
 	if fh.Flags != FlagReserved {
 		return nil, codes.ErrMalformed
 	}
